@@ -299,8 +299,10 @@ def ipca(B, U_a, l_a, n_a, m_a=None, f=1.0, eps=1e-10):
 
     # compute new eigenvalues
     l = s_tilde**2 / (n - 1)
-    # keep only positive eigenvalues within tolerance
-    l = l[l > eps]
+    # keep only positive eigenvalues within tolerance - relative to the largest
+    # one, exactly as the batch decomposition does (an absolute threshold
+    # discards genuine components of small-scale data)
+    l = l[l > eps * np.max(l, initial=0.0)]
 
     U = Vt_tilde.dot(np.vstack((U_a, B_tilde)))[: len(l), :]
 
